@@ -891,7 +891,12 @@ def parse_tree_to_objgraph(
 
         # call obj_proc of rule found in grammar
         if metamodel.has_obj_processor(metaclass_of_grammar_rule.__name__):
-            loc = get_location(model_obj)
+            if hasattr(model_obj, "_tx_position"):
+                loc = get_location(model_obj)
+            else:
+                # A plain value matched by a match rule alternative of an
+                # abstract rule. It has no location of its own.
+                loc = {"line": None, "col": None, "filename": None}
             return_value_grammar = metamodel.process(
                 model_obj, metaclass_of_grammar_rule.__name__, **loc
             )
